@@ -426,6 +426,10 @@ func (c *Conn) OpenDownstream(ctx context.Context, filters []*message.Downstream
 		revAliases     = make(map[message.DataID]uint32, len(downconf.DataIDs))
 	)
 	for _, v := range downconf.DataIDs {
+		if _, ok := revAliases[*v]; ok {
+			// a data ID listed more than once is registered once: one data ID never has two aliases
+			continue
+		}
 		aliases[aliasGenerator.Next()] = v
 		revAliases[*v] = aliasGenerator.CurrentValue()
 	}
